@@ -1,13 +1,13 @@
 #!/bin/sh
 # tools/try_seed.sh <Cxx> <patch.diff> [tier]  — run a check against a patched SCRATCH copy of /repo (never /repo itself
-# while builders are using it): /tmp/repo-m (git worktree-free copy) and /tmp/verif-m (copy of /verif with its own .lake).
+# while builders are using it): /tmp/coord-repo (git worktree-free copy) and /tmp/coord-verif (copy of /verif with its own .lake).
 P=$1; PATCH=$2; TIER=${3:-quick}
-[ -d /tmp/repo-m ] || cp -r /repo /tmp/repo-m
-rsync -a --delete --exclude replays --exclude '.git' /verif/ /tmp/verif-m/
-rsync -a --delete --exclude '.git' /repo/ /tmp/repo-m/
-cd /tmp/repo-m && git apply "$PATCH" 2>/dev/null || (cd /tmp/repo-m && patch -p1 -s < "$PATCH") || { echo "PATCH FAILED"; exit 3; }
-cd /tmp/verif-m && rm -rf replays && RPYC_REPO=/tmp/repo-m ./check $P $TIER > /tmp/try_seed.log 2>&1
+[ -d /tmp/coord-repo ] || cp -r /repo /tmp/coord-repo
+rsync -a --delete --exclude replays --exclude '.git' /verif/ /tmp/coord-verif/
+rsync -a --delete --exclude '.git' /repo/ /tmp/coord-repo/
+cd /tmp/coord-repo && git apply "$PATCH" 2>/dev/null || (cd /tmp/coord-repo && patch -p1 -s < "$PATCH") || { echo "PATCH FAILED"; exit 3; }
+cd /tmp/coord-verif && rm -rf replays && RPYC_REPO=/tmp/coord-repo ./check $P $TIER > /tmp/try_seed.log 2>&1
 echo "exit=$?"; grep -E "VIOLATION|KNOWN|broken:|done in" /tmp/try_seed.log | cut -c1-600
-for f in /tmp/verif-m/replays/$P-*.json; do case "$f" in *disagreements*) ;; *) [ -f "$f" ] && python3 -c "
+for f in /tmp/coord-verif/replays/$P-*.json; do case "$f" in *disagreements*) ;; *) [ -f "$f" ] && python3 -c "
 import json,sys; d=json.load(open('$f')); print('REPLAY', '$f'.split('/')[-1], '| kind:', d.get('kind'), '| case:', json.dumps(d.get('case'))[:500], '| observed:', str(d.get('observed'))[:400])";; esac; done
-rsync -a --delete --exclude '.git' /repo/ /tmp/repo-m/
+rsync -a --delete --exclude '.git' /repo/ /tmp/coord-repo/
